@@ -254,6 +254,39 @@ return ok
             out.append(pair_case(f"c14.all.{kind}{'.' + pre if pre else ''}.in_", iu, ["I64(a, b)", "BU(3, u)"], f"{cls}.in_([a, 1])", f"{cls}.in_([1, b])", probe))
             out.append(pair_case(f"c14.all.{kind}{'.' + pre if pre else ''}.in_range", iu, ["I64(a, b)", "BU(3, u)", "0 <= 5 - a <= 3 and 0 <= 5 - b <= 3"], f"{cls}.in_range(a, 5)", f"{cls}.in_range(b, 5)", probe))
             out.append(pair_case(f"c14.all.{kind}{'.' + pre if pre else ''}.approx", iu, ["I64(a, b)", "BU(3, u)"], f"{cls}.equal_to_approx(a, 2)", f"{cls}.equal_to_approx(b, 2)", probe))
+    # ---- a list argument vs a tuple argument with the same items: where the callable compares the datum with the whole argument
+    # ([1, 2] != (1, 2)) the two conditions behave differently, so they may only compare equal where they behave alike
+    lt_doc = "OBJ.filter([[a, 2], [b, 2], u, [2], []]).result"
+    for nm in ["equal_to", "not_equal_to", "less_than", "greater_than_or_equal_to", "in_", "not_in"]:
+        out.append(pair_case(f"c14.leaf.list_vs_tuple.{nm}", ii, ipre, f"Value.{nm}([a, 2])", f"Value.{nm}((b, 2))", lt_doc if nm not in ("in_", "not_in") else "OBJ.filter([a, b, 2, u]).result"))
+    out.append(pair_case("c14.leaf.list_vs_tuple.in_.nested", ii, ipre, "Value.in_([[a, 2], 0])", "Value.in_([(b, 2), 0])", lt_doc))
+    out.append(pair_case("c14.leaf.list_vs_tuple.items_contain", ii, ipre, "Value.items_contain(k=[a, 2])", "Value.items_contain(k=(b, 2))", "OBJ.filter([{'k': [a, 2]}, {'k': [b, 2]}, u]).result"))
+    out.append(pair_case("c14.part.list_vs_tuple", ii, ipre, "DataPath(MapValue(value=Value.equal_to([a, 2])))", "DataPath(MapValue(value=Value.equal_to((b, 2))))",
+                         "tx(OBJ.get_data({'p': [a, 2], 'q': [b, 2], 'r': u}, return_paths=True))", stubs=["sym_repr"]))
+    out.append(pair_case("c14.rule.list_vs_tuple", ii, ipre, "Rule(('p',), Value.not_equal_to([a, 2]))", "Rule(('p',), Value.not_equal_to((b, 2)))",
+                         "OBJ.test({'p': [a, 2], 'r': u}).is_valid", stubs=["sym_repr"]))
+    # ---- equality does not depend on what the objects have been used for: a schema / rule / path / condition that has validated,
+    # tested, resolved or filtered documents still equals a separately built copy (both ways), before and after the copy is used too
+    for cid, build, use in [
+        ("schema", "Schema([Rule(('p',), Value.greater_than(a)), Rule(('q', ListValue()), Value.not_equal_to(b), cast={str: int})])", "OBJ.validate({'p': u, 'q': [a, '3', b]})"),
+        ("rule", "Rule(('q', ListValue()), Value.not_equal_to(b) | Value.less_than(DataPath('p')), cast={str: int})", "OBJ.test({'p': a, 'q': [u, '3', b]})"),
+        ("path", "DataPath('q', ListValue(value=Value.greater_than(a))).length()", "OBJ.get_data({'q': [[u], 'ab', [b, 2]]}, return_paths=True)"),
+        ("cond", "(Value.greater_than(a) | Value.equal_to(b)) & Value.is_instance(int)", "OBJ.filter([u, a, b])"),
+    ]:
+        body = f"""
+x = {build}
+y = {build}
+ok = note('fresh copies compare equal', x == y and y == x)
+r1 = {use.replace('OBJ', 'x')}
+ok = ok and note('a used object equals a fresh copy, both ways', x == y and y == x and x == x)
+r2 = {use.replace('OBJ', 'y')}
+ok = ok and note('both used on equal documents', x == y and y == x)
+r3 = {use.replace('OBJ', 'x').replace('u', '0', 1) if False else use.replace('OBJ', 'x')}
+z = {build}
+ok = ok and note('used twice vs fresh', x == z and z == x and y == z)
+return ok
+"""
+        out.append(mk_case(f"c14.used_vs_fresh.{cid}", [("a", "int"), ("b", "int"), ("u", "Union[int, bool, None]")], body, pre=["I64(a, b)", "BU(2, u)"], stubs=["sym_repr"]))
     # ---- copies made by the copy protocol (copy.copy / copy.deepcopy; pickle on the concrete witness run): a copy is a separately
     # built copy of the same definition - it compares equal both ways, behaves identically, and using / extending the copy leaves
     # the original as it was (valida itself copies paths for modifiers, conditions for serialisation, rules for add_schema)
